@@ -1,5 +1,15 @@
-# property id -> check module
-REGISTRY = {
-    "C17": "ranges",
-    "C18": "ranges",
-}
+"""Check modules are discovered: every checks/<x>.py defines
+PROPS = [...property ids...] and ENTRIES = {id: manifest text}."""
+import glob
+import os
+import re
+
+REGISTRY = {}
+for _f in sorted(glob.glob(os.path.join(os.path.dirname(__file__), "*.py"))):
+    _name = os.path.basename(_f)[:-3]
+    if _name.startswith("_") or _name == "manifest_entries":
+        continue
+    _m = re.search(r"(?m)^PROPS\s*=\s*\[([^\]]*)\]", open(_f).read())
+    if _m:
+        for _p in re.findall(r"\"(C\d+)\"", _m.group(1)):
+            REGISTRY[_p] = _name
